@@ -108,7 +108,7 @@ func (d *Decimal) setString(c *Context, s string) (Condition, error) {
 	if !d.Negative {
 		s, _ = consumePrefix(s, "+")
 	}
-	s = strings.ToLower(s)
+	s = asciiLower(s)
 	d.Exponent = 0
 	d.Coeff.SetInt64(0)
 	// Until there are no parse errors, leave as NaN.
@@ -126,18 +126,17 @@ func (d *Decimal) setString(c *Context, s string) (Condition, error) {
 	if consumed {
 		isNaN = true
 	}
-	s, consumed = consumePrefix(s, "snan")
-	if consumed {
-		isNaN = true
-		d.Form = NaNSignaling
+	if !isNaN {
+		s, consumed = consumePrefix(s, "snan")
+		if consumed {
+			isNaN = true
+			d.Form = NaNSignaling
+		}
 	}
 	if isNaN {
-		if s != "" {
-			// We ignore these digits, but must verify them.
-			_, err := strconv.ParseUint(s, 10, 64)
-			if err != nil {
-				return 0, fmt.Errorf("parse payload: %s: %w", s, err)
-			}
+		// We ignore the payload digits, but must verify them.
+		if !allDigits(s) {
+			return 0, fmt.Errorf("parse payload: %s", s)
 		}
 		return 0, nil
 	}
@@ -156,6 +155,11 @@ func (d *Decimal) setString(c *Context, s string) (Condition, error) {
 		exps = append(exps, -exp)
 		s = s[:i] + s[i+1:]
 	}
+	// The mantissa must consist of digits only; (*BigInt).SetString would also
+	// accept a sign.
+	if s == "" || !allDigits(s) {
+		return 0, fmt.Errorf("parse mantissa: %s", s)
+	}
 	if _, ok := d.Coeff.SetString(s, 10); !ok {
 		return 0, fmt.Errorf("parse mantissa: %s", s)
 	}
@@ -168,6 +172,33 @@ func (d *Decimal) setString(c *Context, s string) (Condition, error) {
 		exp += e
 	}
 	return c.goError(d.setExponent(c, unknownNumDigits, 0, exp))
+}
+
+// asciiLower lower-cases the ASCII letters of s. Unlike strings.ToLower it
+// does not map non-ASCII letters (such as U+0130) onto ASCII ones.
+func asciiLower(s string) string {
+	for i := 0; i < len(s); i++ {
+		if c := s[i]; 'A' <= c && c <= 'Z' {
+			b := []byte(s)
+			for ; i < len(b); i++ {
+				if c := b[i]; 'A' <= c && c <= 'Z' {
+					b[i] = c + ('a' - 'A')
+				}
+			}
+			return string(b)
+		}
+	}
+	return s
+}
+
+// allDigits reports whether s consists of ASCII digits only.
+func allDigits(s string) bool {
+	for i := 0; i < len(s); i++ {
+		if s[i] < '0' || s[i] > '9' {
+			return false
+		}
+	}
+	return true
 }
 
 // NewFromString creates a new decimal from s. It has no restrictions on
